@@ -36,6 +36,7 @@ type Engine struct {
 	asmFuncs  map[string]stdHandler
 	feasCheck func([]*Term) bool
 	feasQueries int
+	harnCache   map[*ssa.Function]bool
 	funcsSeen map[string]int // functions symbolically executed -> instruction count
 	depth     int
 }
@@ -78,12 +79,25 @@ type outcome struct {
 	ret  Value
 }
 
-func isHarnessFn(fn *ssa.Function) bool {
-	n := fn.Name()
+// harness code = any function whose source lies in an injected overlay file (zz_verif_*.go)
+func (e *Engine) isHarnessFn(fn *ssa.Function) bool {
+	top := fn
 	for p := fn; p != nil; p = p.Parent() {
-		n = p.Name()
+		top = p
 	}
-	return strings.HasPrefix(n, "vh_") || strings.HasPrefix(n, "vc_") || strings.HasPrefix(n, "vs_")
+	if v, ok := e.harnCache[top]; ok {
+		return v
+	}
+	r := false
+	if top.Pos().IsValid() {
+		f := e.fset.Position(top.Pos()).Filename
+		r = strings.HasPrefix(f[strings.LastIndex(f, "/")+1:], "zz_verif_")
+	} else {
+		n := top.Name()
+		r = strings.HasPrefix(n, "vh_") || strings.HasPrefix(n, "vc_") || strings.HasPrefix(n, "vs_")
+	}
+	e.harnCache[top] = r
+	return r
 }
 
 func (e *Engine) pos(i ssa.Instruction) string {
@@ -121,7 +135,7 @@ func (e *Engine) callFunction(s *State, fn *ssa.Function, args []Value, bind []V
 		}
 		e.funcsSeen[fn.String()] = n
 	}
-	fr := &Frame{fn: fn, regs: make(map[ssa.Value]Value), bind: bind, forks: map[ssa.Instruction]int{}, harn: isHarnessFn(fn)}
+	fr := &Frame{fn: fn, regs: make(map[ssa.Value]Value), bind: bind, forks: map[ssa.Instruction]int{}, harn: e.isHarnessFn(fn)}
 	for i, p := range fn.Params {
 		fr.regs[p] = args[i]
 	}
@@ -293,6 +307,15 @@ func (e *Engine) run(frp **Frame, s *State, blk, prev, stop *ssa.BasicBlock, phi
 					break
 				}
 				e.noteBranch(fr, i, c)
+				// the path condition may already decide the branch syntactically
+				if e.st.And(s.pc, c).IsFalse() {
+					prev, blk = blk, blk.Succs[1]
+					break
+				}
+				if e.st.And(s.pc, e.st.Not(c)).IsFalse() {
+					prev, blk = blk, blk.Succs[0]
+					break
+				}
 				fr.forks[i]++
 				if fr.forks[i] > e.maxSymFork {
 					// unwinding obligation: this path must be infeasible
